@@ -1007,3 +1007,117 @@ M("c14-listparts-reads-parts-unlocked", ["C14"], {"C14": ["L2"]}, "uploader.go",
 	mpu.mu.Lock()
 	defer mpu.mu.Unlock()
 """)
+
+# ---------------------------------------------------------------- C03
+REVERT("f20-revert-partial-prefix-commonprefix", ["C03"], {"C03": ["R03.4"]}, "0010-fix-common-prefix-of-a-partially-matched-directory-i.patch")
+REVERT("f22-revert-prune-empty-dirs-c03", ["C03"], {"C03": ["R02.7"]}, "0016-fix-deleting-a-nested-key-on-the-fs-backends-removes.patch")
+
+M("c03-mem-lists-delete-markers", ["C03"], {"C03": ["R03.1"]}, "backend/s3mem/backend.go",
+  """		case item.data.deleteMarker:
+			continue
+		case match.CommonPrefix:""", """		case item.data.deleteMarker && !match.CommonPrefix && page.HasMarker:
+			continue
+		case match.CommonPrefix:""")
+
+M("c03-bolt-lists-without-match", ["C03"], {"C03": ["R03.1"]}, "backend/s3bolt/backend.go",
+  """			if !prefix.Match(key, &match) {
+				continue
+
+			} else if match.CommonPrefix {""", """			if !prefix.Match(key, &match) && prefix.HasDelimiter {
+				continue
+
+			} else if match.CommonPrefix {""")
+
+M("c03-mem-commonprefix-also-in-contents", ["C03"], {"C03": ["R03.1"]}, "backend/s3mem/backend.go",
+  """			response.AddPrefix(match.MatchedPart)
+			lastMatchedPart = match.MatchedPart
+		default:""", """			response.AddPrefix(match.MatchedPart)
+			lastMatchedPart = match.MatchedPart
+			if item.data.name == match.MatchedPart {
+				response.Add(&gofakes3.Content{Key: item.data.name, ETag: item.data.etag, Size: int64(len(item.data.body))})
+			}
+		default:""")
+
+M("c03-single-lists-dirs-as-objects", ["C03"], {"C03": ["R03.1"]}, "backend/s3afero/single.go",
+  """		if entry.IsDir() {
+			response.AddPrefix(path.Join(prefixPath, entry.Name()) + "/")
+
+		} else {""", """		if entry.IsDir() && prefixPart == "" {
+			response.AddPrefix(path.Join(prefixPath, entry.Name()) + "/")
+
+		} else {""")
+
+M("c03-multi-hasprefix-skip-dropped", ["C03"], {"C03": ["R03.1"]}, "backend/s3afero/multi.go",
+  """		if prefixPart != "" && !strings.HasPrefix(object, prefixPart) {
+			continue
+		}
+
+		if entry.IsDir() {
+			response.AddPrefix(path.Join(prefixPath, entry.Name()) + "/")""", """		if prefixPart != "" && !strings.HasPrefix(object, prefixPart) && !entry.IsDir() {
+			continue
+		}
+
+		if entry.IsDir() {
+			response.AddPrefix(path.Join(prefixPath, entry.Name()) + "/")""")
+
+M("c03-mem-etag-from-wrong-field", ["C03"], {"C03": ["R03.3"]}, "backend/s3mem/backend.go",
+  """				ETag:         `"` + hex.EncodeToString(item.data.hash) + `"`,
+				Size:         int64(len(item.data.body)),
+			})
+		}
+
+		cnt++""", """				ETag:         `"` + hex.EncodeToString(item.data.hash) + `"`,
+				Size:         int64(cap(item.data.body)),
+			})
+		}
+
+		cnt++""")
+
+M("c03-multi-meta-for-other-key", ["C03"], {"C03": ["R03.3"]}, "backend/s3afero/multi.go",
+  """			meta, err := db.metaStore.loadMeta(bucket, objectPath, size, mtime)
+			if err != nil {
+				return nil, err
+			}
+
+			response.Add(&gofakes3.Content{
+				Key:          objectPath,""", """			meta, err := db.metaStore.loadMeta(bucket, object, size, mtime)
+			if err != nil {
+				return nil, err
+			}
+
+			response.Add(&gofakes3.Content{
+				Key:          objectPath,""")
+
+M("c03-addprefix-dedupe-lost", ["C03"], {"C03": ["R03.5"]}, "backend.go",
+  """	if b.prefixes == nil {
+		b.prefixes = map[string]bool{}
+	} else if b.prefixes[prefix] {
+		return
+	}
+	b.prefixes[prefix] = true
+	b.CommonPrefixes = append(b.CommonPrefixes, CommonPrefix{Prefix: prefix})""", """	if b.prefixes == nil {
+		b.prefixes = map[string]bool{}
+	}
+	b.prefixes[prefix] = true
+	b.CommonPrefixes = append(b.CommonPrefixes, CommonPrefix{Prefix: prefix})""")
+
+M("c03-single-arbitrary-size-from-meta", ["C03"], {"C03": ["R03.4"]}, "backend/s3afero/single.go",
+  """		response.Add(&gofakes3.Content{
+			Key:          objectPath,
+			LastModified: gofakes3.NewContentTime(mtime),
+			ETag:         `"` + hex.EncodeToString(meta.Hash) + `"`,
+			Size:         size,
+		})
+
+		return nil
+
+	}); err != nil {""", """		response.Add(&gofakes3.Content{
+			Key:          objectPath,
+			LastModified: gofakes3.NewContentTime(mtime),
+			ETag:         `"` + hex.EncodeToString(meta.Hash) + `"`,
+			Size:         meta.Size,
+		})
+
+		return nil
+
+	}); err != nil {""")
